@@ -218,6 +218,19 @@ def r_sem_table(e, R):
         if cname in ("Semaphore", "BoundedSemaphore"):
             R.check(len(m.params) == 2 and m.params[1] == "value", "R-SEM-TABLE", f"{cname}: the initial value is the constructor argument", m.short, "value",
                     "initial value not taken from the argument", e.loc(m, m.node))
+    # the counting semaphores of Condition (sleepers, woken, wake-up tokens) and the flag of Event start at 0: the token balance of
+    # wait / notify (R-COND-TOKENS) and "an Event starts unset" are stated relative to that
+    for cname in ("Condition", "Event"):
+        ci_ = _m(e, cname, "__init__")
+        sem_calls = [c for c in func_nodes(ci_) if isinstance(c, ast.Call) and any(v[0] == "class" and v[1].endswith(":Semaphore") for v in e.pt.ev(ci_, c.func))]
+        for c in sem_calls:
+            v0 = c.args[0] if c.args else next((k.value for k in c.keywords if k.arg == "value"), None)
+            R.check(isinstance(v0, ast.Constant) and v0.value == 0 and not isinstance(v0.value, bool), "R-SEM-TABLE", f"{cname}: `{norm(c)}` starts at 0", ci_.short, norm(c),
+                    f"a counting semaphore of {cname} does not start at 0: " + ("a fresh Event is already set" if cname == "Event" else
+                    "the first notify finds a phantom sleeper / woken waiter or a stale wake-up token (a wait returns without a notify, or notify blocks for a waiter "
+                    "that does not exist)"), e.loc(ci_, c))
+        if not sem_calls:
+            raise AnalysisError(f"{cname}.__init__: no Semaphore construction found")
     # SemLock.__init__ passes (kind, value, maxvalue, name, unlink_now=False) in that order
     g = e.cfg(init)
     for n in func_nodes(init):
